@@ -21,12 +21,12 @@ THRESH = 10 ** 7
 BOUNDS = {
     'quick': 'density grids of shape (2,1,1), (2,2,1), (3,1,1): voxel densities any reals in [0,1000] (also totals below one) with at least one > 0; '
              'temperature any real in (0, 100000]',
-    'thorough': 'free-energy grids up to 5 voxels, counts in [0,10^6], temperature in (0, 10^6]; graph builder on grids up to (2,2,2)',
+    'thorough': 'free-energy grids up to 4 voxels, densities in {0} u [1e-6,10^6], temperature in (0, 10^6]; graph builder on grids up to (2,2,2)',
 }
 OUTSIDE = ['accuracy of libm log/exp (LOG/EXP are uninterpreted with the listed axioms)', 'grids above the bound']
 ASSUMPTIONS = [
     'np.log / np.exp: uninterpreted LOG, EXP with ln x <= x-1, EXP(LOG x) = x, strict monotonicity on the arguments that occur, '
-    'LOG(1)=0, ln x >= -28 for x >= 1e-12; np.log(0) = -inf, np.nan_to_num(+-inf) = +-largest finite double',
+    'LOG(1)=0, ln x >= -28 for x >= 1e-12, ln x >= -56 for x >= 1e-24; np.log(0) = -inf, np.nan_to_num(+-inf) = +-largest finite double',
     '"finite" is checked as |value| <= largest finite binary64 (real arithmetic has no overflow)',
     'physical constant k_B[eV/K] read as an exact rational',
     'a voxel density is 0 or at least 1e-6 (ln p bounded below by the LOG axiom used for the finite-range obligation)',
@@ -176,7 +176,7 @@ def jobs(tier, seed):
     if tier == 'quick':
         cfg = [((2, 1, 1), 1000, 100000), ((2, 2, 1), 1000, 100000), ((3, 1, 1), 1000, 100000)]
     else:
-        cfg = [((2, 1, 1), 10 ** 6, 10 ** 6), ((2, 2, 1), 10 ** 6, 10 ** 6), ((3, 1, 1), 10 ** 6, 10 ** 6), ((1, 1, 4), 10 ** 5, 10 ** 6), ((5, 1, 1), 1000, 10 ** 5)]
+        cfg = [((2, 1, 1), 10 ** 6, 10 ** 6), ((2, 2, 1), 10 ** 6, 10 ** 6), ((3, 1, 1), 10 ** 6, 10 ** 6), ((1, 1, 4), 10 ** 5, 10 ** 6)]
     js = [dict(name='fe_' + 'x'.join(map(str, sh)), fn='fe_job', params=dict(shape=list(sh), cmax=c, tmax=t)) for sh, c, t in cfg]
     gshapes = [(2, 1, 1), (2, 2, 1)] if tier == 'quick' else [(2, 1, 1), (2, 2, 1), (3, 1, 1), (2, 2, 2)]
     for sh in gshapes:
